@@ -1,6 +1,6 @@
 (* C05 - the bounded exhaustive exploration inside Coq (graph invariant, protocol validity,
    creation order) lifted to universally quantified statements over the explored family. *)
-From GV Require Import Base.Prelude Incr.Protocol Incr.WorkQueue Incr.Publisher Incr.Explore Incr.Universe.
+From GV Require Import Base.Prelude Incr.Protocol Incr.WorkQueue Incr.Publisher Incr.NodeProtocol Incr.Explore Incr.Universe.
 
 (* ------------------------------------------------------------------ path enumeration is complete *)
 Lemma paths_complete E cands : forall n s evs,
@@ -60,11 +60,14 @@ Lemma check_path_facts E w evs :
   /\ last_step_ok E s0 evs = true
   /\ valid_prefix (e_parent E) ps = true
   /\ (stopped s1 = true -> valid (e_parent E) ps = true)
-  /\ creation_ok E (concat outs) = true.
+  /\ creation_ok E (concat outs) = true
+  /\ wq_wf E ig is_ outs = true
+  /\ wq_wf_closed E ig is_ outs = stopped s1.
 Proof.
   unfold check_path. destruct (init E w) as [[ig is_] s0].
   destruct (run_batches E s0 (single evs)) as [s1 outs]. cbn zeta.
   intro H.
+  apply andb_true_iff in H as [H H8]. apply andb_true_iff in H as [H H7].
   apply andb_true_iff in H as [H H6]. apply andb_true_iff in H as [H H5].
   apply andb_true_iff in H as [H H4]. apply andb_true_iff in H as [H H3].
   apply andb_true_iff in H as [H1 H2].
@@ -73,6 +76,53 @@ Proof.
     right. apply existsb_exists in X. exact X.
   - split; [exact H3|]. split; [exact H4|]. split.
     + intro Hs. rewrite Hs in H5. exact H5.
-    + exact H6.
+    + split; [exact H6|]. split; [exact H7|]. apply eqb_prop. exact H8.
 Qed.
 
+
+(* ------------------------------------------------------------------ small graphs: every enabled sequence *)
+Lemma enabled_path_app E l1 : forall s l2,
+  enabled_path E s (l1 ++ l2) = true -> enabled_path E s l1 = true.
+Proof.
+  induction l1 as [|e l1 IH]; intros s l2 H; cbn in *; [reflexivity|].
+  apply andb_true_iff in H as [H1 H2]. rewrite H1. cbn. exact (IH _ _ H2).
+Qed.
+
+Definition no_long_path (g : env * work) : bool :=
+  forallb (fun p : list gevent => Nat.leb (length p) 8)
+          (paths (fst g) (candidates (fst g)) 9 (snd (init (fst g) (snd g)))).
+
+Lemma small_graphs_no_long_path : forallb no_long_path (filter small_graph universe) = true.
+Proof. vm_cast_no_check (eq_refl true). Qed.
+
+Lemma small_enabled_short E w evs :
+  In (E, w) universe -> small_graph (E, w) = true ->
+  Forall (fun e => In e (candidates E)) evs ->
+  enabled_path E (snd (init E w)) evs = true -> (length evs <= 8)%nat.
+Proof.
+  intros Hin Hs Hc He.
+  destruct (Nat.le_gt_cases (length evs) 8) as [Hl|Hl]; [exact Hl|exfalso].
+  pose proof small_graphs_no_long_path as H. rewrite forallb_forall in H.
+  assert (Hf : In (E, w) (filter small_graph universe))
+    by (apply (proj2 (filter_In small_graph (E, w) universe)); split; assumption).
+  specialize (H _ Hf). unfold no_long_path in H. cbn [fst snd] in H. rewrite forallb_forall in H.
+  set (pre := firstn 9 evs).
+  assert (Hlen : length pre = 9%nat) by (unfold pre; rewrite firstn_length; lia).
+  assert (Hpre : In pre (paths E (candidates E) 9 (snd (init E w)))).
+  { apply paths_complete.
+    - lia.
+    - unfold pre. apply Forall_forall. intros e He'. rewrite Forall_forall in Hc. apply Hc.
+      rewrite <- (firstn_skipn 9 evs). apply in_or_app. left. exact He'.
+    - apply (enabled_path_app E pre _ (skipn 9 evs)). unfold pre. rewrite firstn_skipn. exact He. }
+  specialize (H _ Hpre). apply Nat.leb_le in H. lia.
+Qed.
+
+(* for the small graphs of the family: EVERY enabled event sequence, of any length *)
+Theorem small_graphs_all_sequences : forall E w,
+  In (E, w) universe -> small_graph (E, w) = true ->
+  forall evs, Forall (fun e => In e (candidates E)) evs ->
+  enabled_path E (snd (init E w)) evs = true -> check_path E w evs = true.
+Proof.
+  intros E w Hin Hs evs Hc He. apply bounded_small; try assumption.
+  pose proof (small_enabled_short E w evs Hin Hs Hc He). lia.
+Qed.
